@@ -174,6 +174,33 @@ func MapOrderSymbolic(on bool) {
 	}
 }
 
+// Or and And combine conditions without short-circuit evaluation, so that the
+// engine builds one disjunction/conjunction term instead of forking per operand.
+func Or(cs ...bool) bool {
+	r := false
+	for _, c := range cs {
+		r = r || c
+	}
+	return r
+}
+
+func And(cs ...bool) bool {
+	r := true
+	for _, c := range cs {
+		r = r && c
+	}
+	return r
+}
+
+// Quiesce (scheduler harnesses) returns when no other goroutine can make
+// progress any more: all of them are blocked or have ended. Natively it only
+// yields, there is no way to observe quiescence.
+func Quiesce() {}
+
+// Yield (scheduler harnesses) marks a long-running step of the environment:
+// any other goroutine may run here, without using up the preemption budget.
+func Yield() {}
+
 // Symbolic reports whether the code runs under the symbolic engine.
 func Symbolic() bool { return false }
 
